@@ -586,23 +586,78 @@ inductive Layout where
   | wide          -- text with items wider than the longest entry
   deriving DecidableEq, Repr
 
-/-- A component as it is held in memory: its values and how they are laid out. -/
+/-! ## Object state (round 2, second strengthening)
+
+A component is a Python object that carries more than its values, and so is the `Data` object that
+holds it.  None of it is part of the table / image: an exporter that reads any of it instead of
+`data[cid]` / `cid.label` writes a file that depends on more than the values.  The harness builds
+the same values under every such state (independently of the values, like the layouts) and sends
+the tags along; the model carries them and **ignores** them
+(`Props.C19.component_state_irrelevant`). -/
+
+/-- State of one component object beyond its values. -/
+structure CompState where
+  /-- display jitter switched on (`CategoricalComponent.jitter('uniform')`): `codes` then returns
+  the category index **plus** a uniform offset in (−0.5, 0.5) -/
+  jitter : Bool := false
+  /-- explicit `categories=` list (recipe id): unsorted, with categories no row uses, so the code of
+  a row is not the rank of its label among the labels present -/
+  cats : Option Nat := none
+  /-- `Component.units` -/
+  units : Option Str := none
+  /-- the component was added under this name and renamed afterwards (`cid.label = …`) -/
+  oldName : Option Str := none
+  /-- a derived component computed *from another component of the dataset* (position, function:
+  0 = identity link, 1 = text length) rather than from the pixel coordinates — the input carries
+  its own layout and state -/
+  source : Option (Nat × Nat) := none
+  deriving DecidableEq, Repr
+
+/-- State of the `Data` object beyond its components' values. -/
+structure DataState where
+  /-- `Data.label` (blanks, slashes, quotes, markup, non-ASCII, empty …) -/
+  label : Str := [100]
+  /-- seed of `np.random` when the data was built (the jitter offsets are drawn from it) -/
+  seed : Nat := 0
+  /-- the whole `Data` went through `GlueSerializer` / `GlueUnSerializer` (a restored session:
+  categories, `jitter_method`, units, links are rebuilt by the loaders) -/
+  restored : Bool := false
+  /-- `Data.coords` is a WCS (world coordinate components exist; gridded FITS writes its header) -/
+  wcs : Bool := false
+  /-- components present in the dataset that are **not requested** (`components=` leaves them out):
+  (kind, position) — 0 `DateTimeComponent`, 1 float with units, 2 jittered text, 3 derived -/
+  extras : List (Nat × Nat) := []
+  deriving DecidableEq, Repr
+
+/-- A component as it is held in memory: its values, how they are laid out, and the state of the
+component object. -/
 structure StoredColumn where
   col : Column
   layout : Layout
+  state : CompState := {}
   deriving Repr
 
 structure StoredDataset where
   shape : List Nat
   cols : List StoredColumn
+  state : DataState := {}
   deriving Repr
 
-/-- The table / image a stored dataset *is*: its values, without the layouts. -/
+/-- The table / image a stored dataset *is*: its values, without layouts and object state. -/
 def StoredDataset.values (s : StoredDataset) : Dataset := ⟨s.shape, s.cols.map (·.col)⟩
 
 /-- The same values under other layouts. -/
 def StoredDataset.relayout (f : Layout → Layout) (s : StoredDataset) : StoredDataset :=
-  ⟨s.shape, s.cols.map fun c => ⟨c.col, f c.layout⟩⟩
+  ⟨s.shape, s.cols.map fun c => ⟨c.col, f c.layout, c.state⟩, s.state⟩
+
+/-- The same values (and layouts) held by objects in another state: `g` per component (it may look
+at the position), `h` for the `Data` object. -/
+def StoredDataset.restate (g : Nat → CompState → CompState) (h : DataState → DataState)
+    (s : StoredDataset) : StoredDataset :=
+  ⟨s.shape, s.cols.zipIdx.map fun p => ⟨p.1.col, p.1.layout, g p.2 p.1.state⟩, h s.state⟩
+
+def StoredDataset.stateful (s : StoredDataset) : Bool :=
+  s.cols.any (fun c => c.state != {}) || s.state != { seed := s.state.seed }
 
 /-- What the driver runs for the `tab` / `img` / `lay` / `chain` families. -/
 def roundTripStored (fmt : Format) (s : StoredDataset) (sel : Option (List Bool))
